@@ -67,12 +67,12 @@ def _mkjob(name, files, args, rec_timeout=600):
 
 @prop("C10", "translation_validation",
       "spec/Layout.tla is a reader (Dec_<family>) and, for the legacy forms, a writer (Enc_*) transcribed from the layout comments and "
-      "flag/offset/family/version constants only. (1) writer: a deterministic catalogue of sketches of 16 families x state kinds is serialized by the "
-      "current tree; TLC decodes every image and compares it field by field with the projection through the public API (reference seed hash, "
+      "flag/offset/family/version constants only. (1) writer: a deterministic catalogue of sketches of 16 families x state kinds (incl. results of set operations with non-default seeds, a CPC "
+      "flavor/phase/offset grid and the rows of the CPC code tables) is serialized by the current tree on BOTH writer paths (bytes and stream); TLC decodes every image and compares it field by field with the projection through the public API (reference seed hash, "
       "reference coupons / bit indices for HLL / Bloom content) and checks the documented constants; (2) reader incl. legacy versions: "
       "spec/GenLayout.tla generates images of every accepted version (Theta v1-v4, Tuple legacy, KLL v1/v2, quantiles v1-v3, t-digest reference "
       "formats) which the real deserializers (bytes, stream, wrap) must read back to the abstract state; (3) baseline: corpus/ holds the catalogue "
-      "written by the pinned commit with recorded projections - the current reader must reproduce them, re-serialize them identically, and the "
+      "written by the pinned commit with recorded projections - both current readers (bytes, stream) must reproduce them (CPC: bit matrix = reference coupons), re-serialize them identically, and the "
       "current writer must produce the same bytes (decoded value where the layout leaves the order free); the 15 .sk files shipped with the "
       "repository must read to the content their tests document; (4) hashing: a type sweep (all integer widths, float/double incl. -0.0 and NaNs, "
       "strings) checks the library's Theta hash / HLL coupon / CPC row-col / Bloom bit indices / count-min buckets against the published definitions "
